@@ -543,6 +543,15 @@ class ExecBase:
         prop = s.unit.props.get((obj.get("ty"), attr)) or s.unit.props.get(("*", attr))
         if prop is not None:
             return prop(s, p, obj)
+        if obj.get("cls") and s.func_stack:
+            # class attribute: evaluate the class body's assignment to that name (e.g. ExtractOptions.with_contexts)
+            mod = source.load_module(s.func_stack[-1].module)
+            cd = mod.classes.get(obj.get("cls"))
+            if cd is not None:
+                for st in cd.body:
+                    tgt = st.target if isinstance(st, ast.AnnAssign) else (st.targets[0] if isinstance(st, ast.Assign) else None)
+                    if isinstance(tgt, ast.Name) and tgt.id == attr and getattr(st, "value", None) is not None:
+                        return s.ev(st.value, p)
         if obj.get("special") or obj.get("fn") or obj.get("cls") or obj.get("model"):
             raise Unsupported(f"attribute {attr} of static object {obj} @ line {getattr(node, 'lineno', '?')}")
         ok, bad = s.fork(p, Val.is_ref(obj.t))
